@@ -37,6 +37,23 @@ def m_obs(text, mode='first_match'):
             'variables': list(eng.variables.items()), 'transforms': [tuple(t) for t in eng.transforms]}
 
 
+def m_obs_disk(text, mode='first_match'):
+    """The same observation for a file ON DISK (written byte for byte, read the way the commands read it)."""
+    from pathlib import Path
+    from tally.merchant_engine import load_merchants_file
+    d = tempfile.mkdtemp(prefix='vt-c17-d-')
+    try:
+        pth = os.path.join(d, 'merchants.rules')
+        with open(pth, 'w', encoding='utf-8', newline='') as f:
+            f.write(text)
+        eng = load_merchants_file(Path(pth), match_mode=mode)
+        return {'rules': [(r.name, r.match_expr, r.category, r.subcategory, r.merchant, tuple(sorted(r.tags)), r.priority,
+                           tuple(map(tuple, r.let_bindings)), tuple(r.fields.items())) for r in eng.rules],
+                'variables': list(eng.variables.items()), 'transforms': [tuple(t) for t in eng.transforms]}
+    finally:
+        shutil.rmtree(d, ignore_errors=True)
+
+
 def v_obs(text):
     from tally.section_engine import parse_sections
     c = parse_sections(text)
@@ -281,6 +298,19 @@ def judge_merchants(rec, rf, rnd, nedits, ncorr):
         if o2 != base:
             diff = [k for k in base if base[k] != o2[k]]
             rec.violation('layout-edit-changes-result:' + desc, f'edit {desc} changes {diff}', dict(case0, text=t2))
+        if rnd.random() < .25:
+            # the file on disk with the line endings of another system (CR LF, or a lone CR as old Mac tools and some exports write): the same rules
+            ending = rnd.choice(['\r', '\r\n', '\r', '\n'])
+            t4 = assemble(p2, b2, '\n')
+            if '\r' not in t4 and '\x0c' not in t4 and '\x85' not in t4 and '\u2028' not in t4 and '\x1c' not in t4:
+                rec.count('files_loaded_from_disk_with_other_line_endings')
+                try:
+                    o4 = m_obs_disk(t4.replace('\n', ending))
+                    if o4 != base:
+                        rec.violation('line-endings-on-disk-change-result:' + repr(ending), f'the file written with {ending!r} line endings loads as {[r[0] for r in o4["rules"]]} '
+                                      f'instead of {[r[0] for r in base["rules"]]} (differs in {[k for k in base if base[k] != o4[k]]})', dict(case0, text=t4))
+                except Exception as e:
+                    rec.violation('line-endings-on-disk-rejected:' + repr(ending), f'{type(e).__name__}: {e}', dict(case0, text=t4))
         if len(blocks) >= 3:
             rec.interesting([core.digest(rf.to_json()), desc, core.digest(t2)])
     for _ in range(ncorr):
@@ -385,7 +415,10 @@ def cli_corrupt(rec, rnd, tmp, k):
         vtext, cls, (lo, hi) = corrupt_views(vpre, vblocks, rnd)
     O.write(os.path.join(b, 'config', 'merchants.rules'), text)
     O.write(os.path.join(b, 'config', 'views.rules'), vtext)
-    O.write(os.path.join(b, 'config', 'settings.yaml'), 'year: 2025\nmerchants_file: config/merchants.rules\nviews_file: config/views.rules\n'
+    other_notice = which == 'views' and rnd.random() < .5
+    O.write(os.path.join(b, 'config', 'settings.yaml'), 'year: 2025\nmerchants_file: config/merchants.rules\nviews_file: config/views.rules\n' +
+            # (another thing to report about this budget - a mistyped rule_mode - does not hide the report about the views file)
+            ('rule_mode: most-specific\n' if other_notice else '') +
             'data_sources:\n  - name: A\n    file: data/a.csv\n    format: "{date:%Y-%m-%d},{description},{amount}"\n')
     env = dict(os.environ, PYTHONPATH=core.SRC, PYTHONDONTWRITEBYTECODE='1', NO_COLOR='1')
     env.pop('TALLY_CONFIG', None)
@@ -395,7 +428,8 @@ def cli_corrupt(rec, rnd, tmp, k):
         p = subprocess.run([core.PY, '-m', 'tally'] + cmd, cwd=b, env=env, capture_output=True, text=True, stdin=subprocess.DEVNULL, timeout=120)
         out = p.stdout + p.stderr
         rec.count('cli_corrupt_runs')
-        told = bool(re.search(r'Line \d+', out)) or 'could not load' in out.lower() or 'error loading' in out.lower() or 'parse error' in out.lower() or 'invalid' in out.lower()
+        told = bool(re.search(r'Line \d+', out)) or 'could not load' in out.lower() or 'error loading' in out.lower() or 'parse error' in out.lower() or \
+            ('invalid' in out.lower() and not other_notice)
         if not told:
             rec.violation('cli-corrupt-%s-silent:%s' % (which, cmd[0]), f'tally {cmd[0]} (exit {p.returncode}) on a budget whose {which} file has a {cls} corruption '
                           f'gives no indication: {out[-300:]!r}', case)
